@@ -12,7 +12,8 @@
 """
 from c06_sx import SX, P, Fv, St, vkey
 from c06_common import CaseCtx, enum_cases, norm_segments, show_segments, Flags, Infeasible, emitter_functions, where_fn
-from lin import Lin
+from lin import Lin, Cons, cone, normalize
+from c06_sx import lin_syms
 from irlib import AnalysisBroken, V
 from c13_fv import PV
 
@@ -157,11 +158,42 @@ def parse_layout(norm, buf):
     return r if k == len(norm) else None
 
 
+class FastFlags(Flags):
+    """flag bits decided by a syntactic look-up of  b <= 0  /  b >= 1  before the (slow) entailment"""
+
+    def _get(self, ctx, name):
+        m = self.t['flags'][name] if name in self.t['flags'] else (self.t['prec'] if name == '.' else self.t['upper'])
+        b = Lin.sym((self.sym, 'bit', m.bit_length() - 1))
+        keys = ctx.st.cons.keys
+        if normalize(Lin(1) - b).key() in keys:
+            return True
+        if normalize(b).key() in keys:
+            return False
+        return Flags._get(self, ctx, name)
+
+
+def slim(sx, s, extra):
+    """copy of a return state whose constraints are restricted to what the layout clauses can depend on"""
+    syms = set(extra)
+    lin_syms(s.segs, syms)
+    lin_syms(s.E, syms)
+    for n in s.notes:
+        lin_syms(n, syms)
+    for l in s.cons.items:
+        for sy in l.t:
+            if isinstance(sy, tuple) and len(sy) == 3 and sy[1] == 'bit':
+                syms.add(sy)
+    r = s.fork()
+    r.cons = Cons(cone(s.cons.items, syms))
+    return r
+
+
 def float_layout(sx, rets, f, T, wp, fam, default_prec=6):
     """{key: (ok, detail)} for the layout clauses of one family"""
     w, p = wp
-    fl = Flags(T)
+    fl = FastFlags(T)
     buf, bsize, _ = digit_buffer(sx, f)
+    seen = set()
     res = {}
     npaths = 0
 
@@ -177,6 +209,11 @@ def float_layout(sx, rets, f, T, wp, fam, default_prec=6):
         npaths += 1
         dots = [n for n in s.notes if n[0] == 'dot' and n[1] == buf]
         signs = sign_symbol(sx, s)
+        s = slim(sx, s, list(w.t) + list(p.t) + [next(iter(q.t)) for (q, _) in signs])
+        sig = (vkey(s.segs), vkey(tuple(dots)), frozenset(s.cons.keys), tuple(x[1] for x in signs))
+        if sig in seen:
+            continue
+        seen.add(sig)
 
         def fn(ctx, s=s, dots=dots, signs=signs):
             L = fl.get(ctx, '-')
